@@ -624,7 +624,9 @@ fn gen_script(rng: &mut Rng, big: bool) -> Script {
     }
     if big {
         // filler up to just below the 16384 limit, then more records
-        let target = 16330 + rng.below(80) as usize;
+        // (the records before the filler take some 100..250 octets: the first
+        // record behind it starts between about 16150 and 16500)
+        let target = 16150 + rng.below(260) as usize;
         let mut filler = vec![];
         let mut total = 0usize;
         while total + 4000 < target {
@@ -634,6 +636,25 @@ fn gen_script(rng: &mut Rng, big: bool) -> Script {
         let rest = target.saturating_sub(total + 200);
         filler.push(Rec { sec, owner: "a.".into(), rd: Rd::Raw(rest) });
         recs.extend(filler);
+        // every second script: a long name straddling the limit (it starts
+        // below it, its tail lies beyond), written through the forward-name
+        // or the reversed-name path, then names that share only its tail
+        if rng.chance(1, 2) {
+            let long = format!("{}.{}.tail.example.net.", "a".repeat(63), "b".repeat(40 + rng.below(24) as usize));
+            if rng.chance(2, 3) {
+                recs.push(Rec { sec, owner: "a.".into(), rd: Rd::Ns(long) });
+            } else {
+                recs.push(Rec { sec, owner: long, rd: Rd::A });
+            }
+            for pre in ["www", "mail"] {
+                let n = format!("{}.tail.example.net.", pre);
+                if rng.chance(1, 2) {
+                    recs.push(Rec { sec, owner: "a.".into(), rd: Rd::Cname(n) });
+                } else {
+                    recs.push(Rec { sec, owner: n, rd: Rd::A });
+                }
+            }
+        }
         for i in 0..(3 + rng.below(5)) {
             let fresh = format!("n{}.fresh{}.example.net.", i, rng.below(3));
             let owner = if rng.chance(1, 2) { fresh.clone() } else { pick(rng) };
